@@ -1,1 +1,170 @@
 // Kani contract harnesses for /repo/arrow-data/src/decimal.rs (child module: sees private items via super::)
+//
+// MAX_/MIN_DECIMAL{32,64,128,256}_FOR_EACH_PRECISION tables and the precision validators.
+// Spec side: 10^p formed by repeated multiplication by ten (native integers; for 256 bits schoolbook
+// on four base-2^64 digits), never read from the tables under test.
+// Stubs: alloc::fmt::format -> stub_format; format_decimal_str / format_decimal_str_internal (error
+// message rendering only) -> empty string.  Error messages are not part of any contract.
+use super::*;
+#[path = "/verif/kani/support/spec.rs"]
+mod spec;
+use spec::*;
+
+fn stub_fmt_dec(_value_str: &str, _precision: usize, _scale: i8) -> String { String::new() }
+fn stub_fmt_dec_internal(_value_str: &str, _precision: usize, _scale: i8, _safe: bool) -> String { String::new() }
+
+// Contract (C12, C13): for every precision p in 0..=9 / 0..=18 / 0..=38: MAX_DECIMALn_FOR_EACH_PRECISION[p]
+// = 10^p - 1 and MIN_...[p] = -(10^p - 1) (entry 0 is the unused 0), the tables have exactly
+// DECIMALn_MAX_PRECISION + 1 entries.
+// @unit name=decimal_tables_native props=C12,C13 kind=complete fns=MAX_DECIMAL32_FOR_EACH_PRECISION,MIN_DECIMAL32_FOR_EACH_PRECISION,MAX_DECIMAL64_FOR_EACH_PRECISION,MIN_DECIMAL64_FOR_EACH_PRECISION,MAX_DECIMAL128_FOR_EACH_PRECISION,MIN_DECIMAL128_FOR_EACH_PRECISION tier=thorough was_quick=1 confirmed=0
+#[kani::proof]
+#[kani::unwind(41)]
+fn decimal_tables_native() {
+    assert!(MAX_DECIMAL32_FOR_EACH_PRECISION.len() == DECIMAL32_MAX_PRECISION as usize + 1 && DECIMAL32_MAX_PRECISION == 9);
+    assert!(MAX_DECIMAL64_FOR_EACH_PRECISION.len() == DECIMAL64_MAX_PRECISION as usize + 1 && DECIMAL64_MAX_PRECISION == 18);
+    assert!(MAX_DECIMAL128_FOR_EACH_PRECISION.len() == DECIMAL128_MAX_PRECISION as usize + 1 && DECIMAL128_MAX_PRECISION == 38);
+    let mut p10: i128 = 1;
+    let mut p = 0usize;
+    while p <= 38 {
+        if p <= 9 { assert!(MAX_DECIMAL32_FOR_EACH_PRECISION[p] as i128 == p10 - 1 && MIN_DECIMAL32_FOR_EACH_PRECISION[p] as i128 == -(p10 - 1)); }
+        if p <= 18 { assert!(MAX_DECIMAL64_FOR_EACH_PRECISION[p] as i128 == p10 - 1 && MIN_DECIMAL64_FOR_EACH_PRECISION[p] as i128 == -(p10 - 1)); }
+        assert!(MAX_DECIMAL128_FOR_EACH_PRECISION[p] == p10 - 1 && MIN_DECIMAL128_FOR_EACH_PRECISION[p] == -(p10 - 1));
+        if p < 38 { p10 *= 10; }
+        p += 1;
+    }
+    kani::cover!(p10 == 100000000000000000000000000000000000000);
+}
+
+/// schoolbook x * 10 on four base-2^64 digits (least significant first); asserts no overflow
+fn mul10(d: [u64; 4]) -> [u64; 4] {
+    let mut out = [0u64; 4];
+    let mut carry: u128 = 0;
+    let mut i = 0;
+    while i < 4 {
+        let t = d[i] as u128 * 10 + carry;
+        out[i] = t as u64;
+        carry = t >> 64;
+        i += 1;
+    }
+    assert!(carry == 0);
+    out
+}
+/// d - 1 for d > 0
+fn dec1(d: [u64; 4]) -> [u64; 4] {
+    let mut out = d;
+    let mut i = 0;
+    while i < 4 {
+        if out[i] != 0 { out[i] -= 1; break; }
+        out[i] = u64::MAX;
+        i += 1;
+    }
+    out
+}
+fn dig256(x: i256) -> [u64; 4] {
+    let (lo, hi) = x.to_parts();
+    [lo as u64, (lo >> 64) as u64, hi as u64, ((hi as u128) >> 64) as u64]
+}
+fn neg256(d: [u64; 4]) -> [u64; 4] {
+    // two's complement negation: !d + 1
+    let mut out = [!d[0], !d[1], !d[2], !d[3]];
+    let mut i = 0;
+    while i < 4 {
+        let (v, c) = out[i].overflowing_add(1);
+        out[i] = v;
+        if !c { break; }
+        i += 1;
+    }
+    out
+}
+
+// Contract (C12, C13): for every precision p in 0..=76: MAX_DECIMAL256_FOR_EACH_PRECISION[p] = 10^p - 1 and
+// MIN_DECIMAL256_FOR_EACH_PRECISION[p] = -(10^p - 1) as 256-bit two's complement values (10^p by
+// schoolbook multiplication on base-2^64 digits); 77 entries; 10^76 - 1 < 2^255.
+// @unit name=decimal_tables_256 props=C12,C13 kind=complete fns=MAX_DECIMAL256_FOR_EACH_PRECISION,MIN_DECIMAL256_FOR_EACH_PRECISION tier=thorough was_quick=1 confirmed=0
+#[kani::proof]
+#[kani::unwind(79)]
+fn decimal_tables_256() {
+    assert!(MAX_DECIMAL256_FOR_EACH_PRECISION.len() == 77 && MIN_DECIMAL256_FOR_EACH_PRECISION.len() == 77 && DECIMAL256_MAX_PRECISION == 76);
+    let mut p10 = [1u64, 0, 0, 0];
+    let mut p = 0usize;
+    while p <= 76 {
+        let m = dec1(p10);
+        assert!(m[3] >> 63 == 0);
+        assert!(dig256(MAX_DECIMAL256_FOR_EACH_PRECISION[p]) == m);
+        assert!(dig256(MIN_DECIMAL256_FOR_EACH_PRECISION[p]) == neg256(m));
+        if p < 76 { p10 = mul10(p10); }
+        p += 1;
+    }
+    kani::cover!(p10[3] != 0);
+}
+
+// Contract (C12, C13): is_validate_decimalN_precision(v, p) <=> p <= DECIMALn_MAX_PRECISION and
+// |v| <= 10^p - 1 (10^p by repeated multiplication), for all v and all p: u8 (N = 32, 64, 128).
+// validate_decimalN_precision(v, p, s) = Ok(()) <=> the same condition, Err otherwise, for every scale s.
+// @unit name=decimal_validate_native props=C12,C13 kind=complete fns=is_validate_decimal32_precision,is_validate_decimal64_precision,is_validate_decimal_precision,validate_decimal32_precision,validate_decimal64_precision,validate_decimal_precision timeout=900 tier=thorough was_quick=1 confirmed=0
+#[kani::proof]
+#[kani::unwind(41)]
+#[kani::stub(alloc::fmt::format, stub_format)]
+#[kani::stub(format_decimal_str, stub_fmt_dec)]
+#[kani::stub(format_decimal_str_internal, stub_fmt_dec_internal)]
+fn decimal_validate_native() {
+    let p: u8 = kani::any();
+    let s: i8 = kani::any();
+    // 10^p for p <= 38 (else unused)
+    let mut p10: i128 = 1;
+    let mut k = 0u8;
+    while k < 38 {
+        if k < p { p10 *= 10; }
+        k += 1;
+    }
+    let (v32, v64, v128): (i32, i64, i128) = (kani::any(), kani::any(), kani::any());
+    let ok32 = p <= 9 && (v32 as i128) <= p10 - 1 && (v32 as i128) >= -(p10 - 1);
+    let ok64 = p <= 18 && (v64 as i128) <= p10 - 1 && (v64 as i128) >= -(p10 - 1);
+    let ok128 = p <= 38 && v128 <= p10 - 1 && v128 >= -(p10 - 1);
+    assert!(is_validate_decimal32_precision(v32, p) == ok32);
+    assert!(is_validate_decimal64_precision(v64, p) == ok64);
+    assert!(is_validate_decimal_precision(v128, p) == ok128);
+    let (r32, r64, r128) = (validate_decimal32_precision(v32, p, s), validate_decimal64_precision(v64, p, s), validate_decimal_precision(v128, p, s));
+    assert!(r32.is_ok() == ok32 && r64.is_ok() == ok64 && r128.is_ok() == ok128);
+    kani::cover!(ok32 && p == 9 && v32 < -99999999);
+    kani::cover!(!ok32 && p <= 9);
+    kani::cover!(!ok64 && p <= 18 && v64 > 0);
+    kani::cover!(ok128 && p == 38 && v128 > 9999999999999999999999999999999999999);
+    kani::cover!(!ok128 && p <= 38 && v128 < 0);
+    kani::cover!(p > 38);
+    kani::cover!(p == 0 && ok32);
+    std::mem::forget((r32, r64, r128));
+}
+
+// Contract (C12, C13): is_validate_decimal256_precision(v, p) <=> p <= 76 and -(10^p - 1) <= v <= 10^p - 1
+// for all 256-bit v and all p: u8; the bounds are the spec's own 10^p - 1 (schoolbook digits) and the
+// comparison is the mathematical order on four-digit two's complement values (top digit signed).
+// @unit name=decimal_validate_256 props=C12,C13 kind=complete fns=is_validate_decimal256_precision timeout=900 tier=thorough was_quick=1 confirmed=0
+#[kani::proof]
+#[kani::unwind(79)]
+fn decimal_validate_256() {
+    let p: u8 = kani::any();
+    let v = i256::from_parts(kani::any(), kani::any());
+    let mut p10 = [1u64, 0, 0, 0];
+    let mut k = 0u8;
+    while k < 76 {
+        if k < p { p10 = mul10(p10); }
+        k += 1;
+    }
+    let m = dec1(p10);
+    let d = dig256(v);
+    // v <= m and v >= -m on digits: compare signed top digit, then unsigned digits downwards
+    let le = |a: [u64; 4], b: [u64; 4]| -> bool {
+        if (a[3] as i64) != (b[3] as i64) { return (a[3] as i64) < (b[3] as i64); }
+        if a[2] != b[2] { return a[2] < b[2]; }
+        if a[1] != b[1] { return a[1] < b[1]; }
+        a[0] <= b[0]
+    };
+    let ok = p <= 76 && le(d, m) && le(neg256(m), d);
+    assert!(is_validate_decimal256_precision(v, p) == ok);
+    kani::cover!(ok && p == 76 && d[3] > 1 << 60);
+    kani::cover!(ok && p > 40 && (d[3] as i64) < -1);
+    kani::cover!(!ok && p <= 76 && (d[3] as i64) >= 0);
+    kani::cover!(!ok && p <= 76 && (d[3] as i64) < 0);
+    kani::cover!(p > 76);
+}
